@@ -1,12 +1,12 @@
 package main
 
 import (
-	"runtime/pprof"
 	"encoding/json"
 	"flag"
 	"fmt"
 	"os"
 	"path/filepath"
+	"runtime/pprof"
 	"strings"
 	"time"
 
@@ -113,6 +113,9 @@ func runHarness(prog *ssa.Program, fn *ssa.Function, cfg Config, prefix []int, s
 	}
 	if len(e.events) > 0 {
 		hr.Verdict = "INCONCLUSIVE"
+	}
+	if e.stoppedByPeer {
+		hr.Verdict = "SKIPPED"
 	}
 	for _, p := range e.results {
 		if p.Kind == "inconclusive" {
@@ -229,6 +232,8 @@ func cmdRun(args []string) {
 	all := fs.Bool("all", false, "do not stop at the first violation")
 	slow := fs.Int("slow", 0, "log queries slower than this many ms")
 	unwind := fs.Int("unwind", 64, "loop bound")
+	prefixS := fs.String("prefix", "", "comma separated pre-assigned vfChoice values")
+	thorough := fs.Bool("thorough", false, "thorough tier")
 	prof := fs.String("prof", "", "cpu profile")
 	fs.Parse(args)
 	if *prof != "" {
@@ -275,7 +280,16 @@ func cmdRun(args []string) {
 			fmt.Println("no such function", name)
 			os.Exit(2)
 		}
-		hr := runHarness(prog, fn, cfg, nil, *solver, *logp)
+		var prefix []int
+		for _, p := range strings.Split(*prefixS, ",") {
+			if p != "" {
+				k := 0
+				fmt.Sscan(p, &k)
+				prefix = append(prefix, k)
+			}
+		}
+		cfg.Thorough = *thorough
+		hr := runHarness(prog, fn, cfg, prefix, *solver, *logp)
 		hr.Entered = nil
 		b, _ := json.MarshalIndent(hr, "", " ")
 		fmt.Println(string(b))
